@@ -50,9 +50,14 @@ def gen_case(rng, idx):
 def variants(rng, data):
     cuts = sorted({rng.randrange(0, len(data) + 1)
                    for _ in range(rng.choice([1, 2]))}) if data else [0]
+    # the gzip header's MTIME field is metadata, not content: old (year
+    # 2000), zero and "now" must all behave like the plain file
+    mt = rng.choice([946684800, 0, None, 1641000000])
     return [('plain', None),
-            ('gzip', {'level': rng.choice([1, 6, 9]), 'cuts': []}),
-            ('multi', {'level': rng.choice([1, 6, 9]), 'cuts': cuts})]
+            ('gzip', {'level': rng.choice([1, 6, 9]), 'cuts': [],
+                      'mtime': mt}),
+            ('multi', {'level': rng.choice([1, 6, 9]), 'cuts': cuts,
+                       'mtime': rng.choice([946684800, None])})]
 
 
 def run(chk):
